@@ -841,17 +841,12 @@ RSA_PUB_DER = None
 
 
 def rsa_fixture():
-    """One fixed 1024-bit RSA pair (PKCS#1 DER), generated once per process."""
+    """One fixed 1024-bit RSA test pair (PKCS#1 DER) kept under mc/fixtures (a throwaway key)."""
     global RSA_PRIV_DER, RSA_PUB_DER
     if RSA_PRIV_DER is None:
-        from cryptography.hazmat.primitives.asymmetric import rsa
-        from cryptography.hazmat.primitives import serialization
-        k = rsa.generate_private_key(public_exponent=65537, key_size=1024)
-        RSA_PRIV_DER = k.private_bytes(serialization.Encoding.DER,
-                                       serialization.PrivateFormat.TraditionalOpenSSL,
-                                       serialization.NoEncryption())
-        RSA_PUB_DER = k.public_key().public_bytes(serialization.Encoding.DER,
-                                                  serialization.PublicFormat.PKCS1)
+        d = os.path.join(os.path.dirname(os.path.abspath(__file__)), 'fixtures')
+        RSA_PRIV_DER = open(os.path.join(d, 'rsa1024_priv.der'), 'rb').read()
+        RSA_PUB_DER = open(os.path.join(d, 'rsa1024_pub.der'), 'rb').read()
     return RSA_PRIV_DER, RSA_PUB_DER
 
 
@@ -879,7 +874,9 @@ def pie_opaque(value=b'\x33' * 10):
 
 
 def pie_certificate(masks=None):
-    return pobjects.X509Certificate(make_cert(('subject',), 'client'),
+    der = open(os.path.join(os.path.dirname(os.path.abspath(__file__)), 'fixtures',
+                            'cert_subject.der'), 'rb').read()
+    return pobjects.X509Certificate(der,
                                     masks=list(masks) if masks else None)
 
 
